@@ -334,12 +334,12 @@ pub fn build_cases(p: P, tier: &str, seed: u64, pools: &Pools) -> Vec<Case> {
     }
     // (d) random core cases
     let nrand = match (p, thorough) {
-        (P::V1P, false) => 150,
-        (P::V3P, false) => 300,
-        (P::V2P | P::V4P, false) => 2000,
-        (_, false) => 3000,
-        (P::V1P, true) => 4000,
-        (P::V3P, true) => 8000,
+        (P::V1P, false) => 400,
+        (P::V3P, false) => 600,
+        (P::V2P | P::V4P, false) => 6000,
+        (_, false) => 15_000,
+        (P::V1P, true) => 40_000,
+        (P::V3P, true) => 40_000,
         (P::V2P | P::V4P, true) => 150_000,
         (_, true) => 250_000,
     };
@@ -357,9 +357,9 @@ pub fn build_cases(p: P, tier: &str, seed: u64, pools: &Pools) -> Vec<Case> {
     }
     // (e) upper layers
     let nupper = match (p, thorough) {
-        (P::V1P, false) => 60,
-        (P::V3P, false) => 120,
-        (_, false) => 400,
+        (P::V1P, false) => 120,
+        (P::V3P, false) => 240,
+        (_, false) => 1500,
         (P::V1P, true) => 1500,
         (P::V3P, true) => 3000,
         (_, true) => 30_000,
